@@ -602,8 +602,15 @@ function describeIndexObjectMember(
   ctx: DescribeContext,
   key: Runtype,
   value: Runtype,
+  hasNamedMembers: boolean,
 ): { docText?: string; member: string } {
-  return describeMember(ctx, `[K in ${describeTypeExpr(ctx, key)}]`, value);
+  const keyExpr = describeTypeExpr(ctx, key);
+  // a mapped type cannot have other members: next to named properties print an index signature
+  const asIndexSignature =
+    hasNamedMembers &&
+    !(value instanceof OptionalFieldRuntype) &&
+    (keyExpr === "string" || keyExpr === "number" || keyExpr.startsWith("`"));
+  return describeMember(ctx, asIndexSignature ? `[key: ${keyExpr}]` : `[K in ${keyExpr}]`, value);
 }
 
 function renderObjectMember(member: { docText?: string; member: string }): string {
@@ -2007,7 +2014,7 @@ export class ObjectRuntype extends BaseRuntype {
     });
 
     const indexProps = this.indexedPropertiesParser.map(({ key, value }) =>
-      describeIndexObjectMember(ctx, key, value),
+      describeIndexObjectMember(ctx, key, value, props.length > 0),
     );
 
     const members = [...props, ...indexProps];
